@@ -734,4 +734,154 @@ theorem shiftFn_strictMono (o : Opts) (particle delta fm : Rat) (hn : 0 < o.neut
   simp only []
   split_ifs <;> linarith
 
+/-- shared first step: a successful run factors through the element loop on resolved isotope lists -/
+theorem run_ok (f : Formula) (o : Opts) (out : Dist Rat) (h : isotopicDistribution f o = .ok out) :
+    ∃ L particle delta fm,
+      resolve o (cleanFormula f) = some L ∧
+      finishDistribution o (convolveList (roundOpt o.resolution) (some (o.convMinAbundanceThreshold.getD 0))
+        o.maxIsotopes o.floor L [((0 : Rat), 1)]) particle delta fm = .ok out := by
+  unfold isotopicDistribution at h
+  split at h
+  · cases h
+  · next t p d m hraw =>
+    obtain ⟨L, hL, ht, _⟩ := rawDistribution_ok f o t p d m hraw
+    exact ⟨L, p, d, m, hL, ht ▸ h⟩
+
+/-- second step: after normalisation the pattern is `scaleAbundances` of the shifted, normalised, sorted list -/
+theorem finish_ok (o : Opts) (t : Dist Rat) (p d m : Rat) (out : Dist Rat)
+    (h : finishDistribution o t p d m = .ok out) :
+    ∃ mx, maxAb t = some mx ∧ mx ≠ 0 ∧
+      scaleAbundances ((normalized o t mx).map (fun q => (shiftFn o p d m q.1, q.2)))
+        o.distributionAbundance o.isAbundanceSum o.precision = .ok out := by
+  rw [finishDistribution_eq] at h
+  split at h
+  · cases h
+  · next mx hm =>
+    by_cases h0 : mx = 0
+    · simp [h0] at h
+    · simp only [h0, if_false] at h
+      exact ⟨mx, hm, h0, h⟩
+
+
+/-! ### lightest peak -/
+
+/-- `m` is the smallest key of `d` -/
+def IsMin (d : Dist Rat) (m : Rat) : Prop := (∃ p ∈ d, p.1 = m) ∧ ∀ p ∈ d, m ≤ p.1
+
+theorem mem_keys_convRow (thr : Option Rat) (m1 a1 : Rat) (d2 acc : Dist Rat)
+    (hk : ∀ p2 ∈ d2, keep thr (a1 * p2.2) = true) (x : Rat) :
+    x ∈ (convRow id thr m1 a1 d2 acc).map (·.1) ↔ x ∈ acc.map (·.1) ∨ ∃ p2 ∈ d2, x = m1 + p2.1 := by
+  induction d2 generalizing acc with
+  | nil => simp [convRow]
+  | cons p t ih =>
+    obtain ⟨m2, a2⟩ := p
+    simp only [convRow]
+    rw [hk (m2, a2) (List.mem_cons_self ..)]
+    simp only [if_true]
+    rw [ih _ (fun q hq => hk q (List.mem_cons_of_mem _ hq)), mem_keys_addKey]
+    simp only [id, List.mem_cons, exists_eq_or_imp]
+    tauto
+
+theorem mem_keys_convLoop (thr : Option Rat) (d1 d2 acc : Dist Rat) (hk : AllKept thr d1 d2) (x : Rat) :
+    x ∈ (convLoop id thr d1 d2 acc).map (·.1) ↔
+      x ∈ acc.map (·.1) ∨ ∃ p1 ∈ d1, ∃ p2 ∈ d2, x = p1.1 + p2.1 := by
+  induction d1 generalizing acc with
+  | nil => simp [convLoop]
+  | cons p t ih =>
+    obtain ⟨m1, a1⟩ := p
+    simp only [convLoop]
+    rw [ih _ (fun q hq => hk q (List.mem_cons_of_mem _ hq)),
+        mem_keys_convRow thr m1 a1 d2 acc (fun q hq => hk (m1, a1) (List.mem_cons_self ..) q hq)]
+    simp only [List.mem_cons, exists_eq_or_imp]
+    exact or_assoc
+
+theorem isMin_convolve (thr : Option Rat) (d1 d2 : Dist Rat) (m1 m2 : Rat) (hk : AllKept thr d1 d2)
+    (h1 : IsMin d1 m1) (h2 : IsMin d2 m2) : IsMin (convolve id thr none d1 d2) (m1 + m2) := by
+  obtain ⟨⟨p1, hp1, e1⟩, l1⟩ := h1
+  obtain ⟨⟨p2, hp2, e2⟩, l2⟩ := h2
+  have key := mem_keys_convLoop thr d1 d2 [] hk
+  simp only [convolve]
+  constructor
+  · have : m1 + m2 ∈ (convLoop id thr d1 d2 []).map (·.1) :=
+      (key _).2 (Or.inr ⟨p1, hp1, p2, hp2, by rw [e1, e2]⟩)
+    obtain ⟨q, hq, hqe⟩ := List.mem_map.1 this
+    exact ⟨q, hq, hqe⟩
+  · intro q hq
+    have : q.1 ∈ (convLoop id thr d1 d2 []).map (·.1) := List.mem_map.2 ⟨q, hq, rfl⟩
+    rcases (key _).1 this with h | ⟨r1, hr1, r2, hr2, e⟩
+    · simp at h
+    · rw [e]; exact add_le_add (l1 r1 hr1) (l2 r2 hr2)
+
+theorem isMin_elementalFrom (isos : Dist Rat) (mi : Rat) (hi : IsMin isos mi) (n : Nat) (d : Dist Rat) (m : Rat)
+    (hd : IsMin d m) : IsMin (elementalFrom none isos n d) (m + n * mi) := by
+  induction n generalizing d m with
+  | zero => simpa [elementalFrom] using hd
+  | succ n ih =>
+    simp only [elementalFrom]
+    have := ih _ _ (isMin_convolve none d isos m mi (allKept_none _ _) hd hi)
+    have e : m + mi + (n : Rat) * mi = m + ((n + 1 : Nat) : Rat) * mi := by push_cast; ring
+    rwa [e] at this
+
+/-- `Σ count · (lightest isotope mass)` -/
+def lightSum : List (Dist Rat × Nat) → (Dist Rat → Rat) → Rat
+  | [], _ => 0
+  | (isos, n) :: t, μ => n * μ isos + lightSum t μ
+
+theorem isMin_convolveList (μ : Dist Rat → Rat) (L : List (Dist Rat × Nat)) (d : Dist Rat) (m : Rat)
+    (hL : ListPos L) (hμ : ∀ x ∈ L, IsMin x.1 (μ x.1)) (hd : AllPos d) (hm : IsMin d m) :
+    IsMin (convolveList id (some 0) none none L d) (m + lightSum L μ) := by
+  induction L generalizing d m with
+  | nil => simpa [convolveList, lightSum] using hm
+  | cons x t ih =>
+    obtain ⟨isos, n⟩ := x
+    have hi : AllPos isos := hL (isos, n) (List.mem_cons_self ..)
+    have he : AllPos (elemental none isos n) := allPos_elementalFrom none isos n _ hi allPos_start
+    have hme : IsMin (elemental none isos n) (n * μ isos) := by
+      have := isMin_elementalFrom isos (μ isos) (hμ (isos, n) (List.mem_cons_self ..)) n [((0 : Rat), 1)] 0
+        ⟨⟨(0, 1), List.mem_cons_self .., rfl⟩, by intro p hp; simp at hp; subst hp; exact le_refl _⟩
+      simpa [elemental] using this
+    simp only [convolveList, lightSum]
+    have := ih _ _ (fun y hy => hL y (List.mem_cons_of_mem _ hy)) (fun y hy => hμ y (List.mem_cons_of_mem _ hy))
+      (allPos_convolve _ _ _ _ _ hd he) (isMin_convolve _ _ _ _ _ (allKept_zero _ _ hd he) hm hme)
+    have e : m + ↑n * μ isos + lightSum t μ = m + (↑n * μ isos + lightSum t μ) := by ring
+    rwa [e] at this
+
+/-! ### push-forward and merge -/
+section
+variable [DecidableEq κ]
+
+/-- re-key a distribution and merge equal keys (binning) -/
+def pushforward {κ₂ : Type} [DecidableEq κ₂] (f : κ → κ₂) (d : Dist κ) : Dist κ₂ :=
+  d.foldl (fun acc p => addKey acc (f p.1) p.2) []
+
+theorem integral_foldl_addKey {κ₂ : Type} [DecidableEq κ₂] (f : κ → κ₂) (d : Dist κ) (acc : Dist κ₂) (g : κ₂ → Rat) :
+    integral (d.foldl (fun acc p => addKey acc (f p.1) p.2) acc) g = integral acc g + integral d (fun k => g (f k)) := by
+  induction d generalizing acc with
+  | nil => simp
+  | cons p t ih => obtain ⟨k, a⟩ := p; simp only [List.foldl_cons, ih, integral_addKey, integral_cons]; ring
+
+theorem integral_pushforward {κ₂ : Type} [DecidableEq κ₂] (f : κ → κ₂) (d : Dist κ) (g : κ₂ → Rat) :
+    integral (pushforward f d) g = integral d (fun k => g (f k)) := by
+  unfold pushforward; rw [integral_foldl_addKey]; simp
+
+end
+
+theorem integral_mergeInto (d acc : Dist Rat) (g : Rat → Rat) :
+    integral (mergeInto none d acc) g = integral acc g + integral d g := by
+  induction d generalizing acc with
+  | nil => simp [mergeInto]
+  | cons p t ih =>
+    obtain ⟨k, a⟩ := p
+    simp only [mergeInto, roundOpt, ih, integral_addKey, integral_cons]; ring
+
+/-- sum of the integrals of several distributions -/
+def sumIntegrals (ds : List (Dist Rat)) (g : Rat → Rat) : Rat := (ds.map (fun d => integral d g)).sum
+
+theorem integral_mergeLoop (ds : List (Dist Rat)) (acc : Dist Rat) (g : Rat → Rat) :
+    integral (mergeLoop none ds acc) g = integral acc g + sumIntegrals ds g := by
+  induction ds generalizing acc with
+  | nil => simp [mergeLoop, sumIntegrals]
+  | cons d t ih =>
+    simp only [mergeLoop, ih, integral_mergeInto, sumIntegrals, List.map_cons, List.sum_cons]; ring
+
 end Isotope
